@@ -33,7 +33,9 @@ fn staircase_h(rng: &mut Rng, r: usize, n: usize) -> SparseMatrix {
 pub fn run(ctx: &mut Ctx, _replay: Option<&[String]>) {
     let mut rng = Rng::new(ctx.seed, 12);
     set_workers(4);
-    let mut hs: Vec<SparseMatrix> = vec![crate::c13::test_matrix(), staircase_h(&mut rng, 6, 18), staircase_h(&mut rng, 12, 24)];
+    // (codeword lengths 10 and 20 are NOT multiples of 3, but some of their punctured frame lengths are: 9, 18, 15)
+    let mut hs: Vec<SparseMatrix> = vec![crate::c13::test_matrix(), staircase_h(&mut rng, 6, 18), staircase_h(&mut rng, 12, 24),
+        staircase_h(&mut rng, 5, 10), staircase_h(&mut rng, 8, 20)];
     if ctx.thorough {
         hs.push(staircase_h(&mut rng, 9, 36));
         hs.push(staircase_h(&mut rng, 24, 48));
@@ -44,7 +46,7 @@ pub fn run(ctx: &mut Ctx, _replay: Option<&[String]>) {
         let k = ncw - h.num_rows();
         // patterns of length dividing n_cw: none, tail block, middle block, systematic (first) block
         let mut patterns: Vec<Option<Vec<bool>>> = vec![None];
-        for plen in [2usize, 3, 4, 6] {
+        for plen in [2usize, 3, 4, 5, 6, 10] {
             if ncw % plen != 0 { continue; }
             for off in [plen - 1, plen / 2, 0] {
                 let p: Vec<bool> = (0..plen).map(|i| i != off).collect();
